@@ -26,6 +26,8 @@ def opC03Acc (args : List W) : String :=
   | [p, stored, mc, u] =>
     match p.bytes?, stored.bytes?, mc.bool?, u.bytes? with
     | some p, some stored, some mc, some u =>
+      -- outside ASCII the byte-level model is not Go's rune-based regexp (hypotheses of `c03`)
+      if !Bytes.isAscii u || !Bytes.isAscii p then "ood ood" else
       let spec := outBool (ruleAccepts p mc u)
       let model :=
         match rewriteSlashStar p with
